@@ -1,6 +1,199 @@
-//! engine `multi` (stub — to be written)
+//! engine `multi` — C02 / C06: multi-threaded compression (`src/enc/threading.rs` CompressMulti
+//! through the three spawners: thread per job, worker pool, inline).
+//!
+//! Sub-modes (`args.rest[0]`): none = the registered run (correspondence + search);
+//! `probe <name>` = the minimal defect reproductions (D13, D16, …) printed to stdout.
+//!
+//! Non-trivial case (rule for `rep.nontrivial`): a CompressMulti call with ≥ 2 jobs of which at
+//! least two have a non-empty range.
+use crate::prng::Rng;
 use crate::util::*;
+use alloc_no_stdlib::{Allocator, SliceWrapper, SliceWrapperMut};
+use alloc_stdlib::StandardAlloc;
+use brotli::enc::backward_references::{BrotliEncoderParams, UnionHasher};
+use brotli::enc::encode::{BrotliEncoderOperation, BrotliEncoderStateStruct};
+use brotli::enc::threading::{BrotliEncoderThreadError, InternalOwned, Owned, SendAlloc};
+use brotli::enc::{BrotliEncoderMaxCompressedSize, BrotliEncoderMaxCompressedSizeMulti};
+use std::panic::{catch_unwind, AssertUnwindSafe};
+
+pub struct V(pub Vec<u8>);
+impl SliceWrapper<u8> for V {
+    fn slice(&self) -> &[u8] { &self.0[..] }
+}
+
+#[derive(Clone, Copy, PartialEq, Debug)]
+pub enum Spawner { Threads, PoolFresh, Inline }
+impl Spawner {
+    pub fn name(self) -> &'static str { match self { Spawner::Threads => "threads", Spawner::PoolFresh => "pool", Spawner::Inline => "inline" } }
+}
+
+/// what one CompressMulti call did
+#[derive(Clone, PartialEq, Debug)]
+pub struct Outcome {
+    /// "ok" | "panic" | error class
+    pub class: String,
+    /// bytes reported (Ok(n)) — `out[..n]`
+    pub bytes: Vec<u8>,
+    /// the input token is back in `owned_input`
+    pub returned: bool,
+    /// panic message, if any
+    pub msg: String,
+}
+
+pub fn err_class(e: &BrotliEncoderThreadError) -> String {
+    match e {
+        BrotliEncoderThreadError::InsufficientOutputSpace => "insufficient".into(),
+        BrotliEncoderThreadError::ConcatenationDidNotProcessFullFile => "notfull".into(),
+        BrotliEncoderThreadError::ConcatenationError(r) => format!("caterr{}", *r as u8),
+        BrotliEncoderThreadError::ConcatenationFinalizationError(r) => format!("finerr{}", *r as u8),
+        BrotliEncoderThreadError::OtherThreadPanic => "otherpanic".into(),
+        BrotliEncoderThreadError::ThreadExecError(_) => "threadexec".into(),
+    }
+}
+
+fn panic_msg(e: Box<dyn std::any::Any + Send>) -> String {
+    if let Some(s) = e.downcast_ref::<&str>() { s.to_string() } else if let Some(s) = e.downcast_ref::<String>() { s.clone() } else { "?".into() }
+}
+
+type Pool = brotli::enc::WorkerPool<brotli::enc::CompressionThreadResult<StandardAlloc>, UnionHasher<StandardAlloc>, StandardAlloc, (V, BrotliEncoderParams)>;
+
+/// one call through the chosen spawner; `pool` (if given, with `Spawner::PoolFresh`) is a
+/// caller-owned pool that is REUSED across calls
+pub fn run_multi(sp: Spawner, params: &BrotliEncoderParams, input: &[u8], t: usize, cap: usize, pool: Option<&mut Pool>) -> Outcome {
+    let mut out = vec![0u8; cap];
+    let mut owned = Owned::new(V(input.to_vec()));
+    let r = catch_unwind(AssertUnwindSafe(|| match sp {
+        Spawner::Threads => {
+            let mut allocs: Vec<_> = (0..t).map(|_| SendAlloc::new(StandardAlloc::default(), UnionHasher::Uninit)).collect();
+            brotli::enc::compress_multi_no_threadpool(params, &mut owned, &mut out[..], &mut allocs[..])
+        }
+        Spawner::PoolFresh => {
+            let mut allocs: Vec<_> = (0..t).map(|_| SendAlloc::new(StandardAlloc::default(), UnionHasher::Uninit)).collect();
+            match pool {
+                Some(p) => brotli::enc::compress_worker_pool(params, &mut owned, &mut out[..], &mut allocs[..], p),
+                None => brotli::enc::compress_multi(params, &mut owned, &mut out[..], &mut allocs[..]),
+            }
+        }
+        Spawner::Inline => {
+            let mut allocs: Vec<_> = (0..t).map(|_| SendAlloc::new(StandardAlloc::default(), UnionHasher::Uninit)).collect();
+            brotli::enc::singlethreading::compress_multi(params, &mut owned, &mut out[..], &mut allocs[..])
+        }
+    }));
+    let returned = match owned.0 { InternalOwned::Item(ref v) => v.0 == input, InternalOwned::Borrowed => false };
+    match r {
+        Ok(Ok(n)) => {
+            if n > cap { return Outcome { class: "ok-overrun".into(), bytes: vec![], returned, msg: format!("n={} cap={}", n, cap) }; }
+            out.truncate(n);
+            Outcome { class: "ok".into(), bytes: out, returned, msg: String::new() }
+        }
+        Ok(Err(e)) => Outcome { class: err_class(&e), bytes: vec![], returned, msg: String::new() },
+        Err(e) => Outcome { class: "panic".into(), bytes: vec![], returned, msg: panic_msg(e) },
+    }
+}
+
+/// `get_range` of threading.rs, recomputed (wrapping u64 arithmetic as in a release build)
+pub fn get_range(i: usize, t: usize, n: usize) -> (usize, usize) {
+    (i.wrapping_mul(n) / t, (i + 1).wrapping_mul(n) / t)
+}
+
+/// one job recomputed through the public single-stream API exactly as `compress_part` does
+/// (appendable job 0, catable jobs > 0 with the preceding input as custom dictionary, one
+/// FINISH call loop into a buffer of `BrotliEncoderMaxCompressedSize(len)` bytes).
+/// Returns (Ok(bytes) | Err(class), finished, has_more_output)
+pub fn job_bytes(params: &BrotliEncoderParams, input: &[u8], i: usize, t: usize) -> (Result<Vec<u8>, String>, bool, bool) {
+    let (lo, hi) = get_range(i, t, input.len());
+    let mut mem = vec![0u8; BrotliEncoderMaxCompressedSize(hi - lo)];
+    let mut state = BrotliEncoderStateStruct::new(StandardAlloc::default());
+    state.params = params.clone();
+    if i != 0 { state.params.catable = true; state.params.magic_number = false; }
+    state.params.appendable = true;
+    if i != 0 { state.set_custom_dictionary(lo, &input[..lo]); }
+    let mut out_offset = 0usize;
+    let mut available_out = mem.len();
+    let mut cur = lo;
+    let res;
+    let mut rounds = 0;
+    loop {
+        let mut next_in_offset = 0usize;
+        let mut available_in = hi - cur;
+        let result = state.compress_stream(BrotliEncoderOperation::BROTLI_OPERATION_FINISH, &mut available_in, &input[cur..hi], &mut next_in_offset, &mut available_out, &mut mem[..], &mut out_offset, &mut None, &mut |_a, _b, _c, _d| ());
+        cur += next_in_offset;
+        rounds += 1;
+        if result { res = Ok(out_offset); break; } else if available_out == 0 { res = Err("insufficient".to_string()); break; }
+        if rounds > 1000 { res = Err("livelock".to_string()); break; }
+    }
+    let fin = state.is_finished();
+    let more = state.has_more_output();
+    brotli::enc::encode::BrotliEncoderDestroyInstance(&mut state);
+    (res.map(|n| mem[..n].to_vec()), fin, more)
+}
+
+pub fn mk_params(q: i32, lgwin: i32, favor: bool, catable: bool, appendable: bool, magic: bool, large: bool) -> BrotliEncoderParams {
+    let mut p = BrotliEncoderParams::default();
+    p.quality = q; p.lgwin = lgwin; p.favor_cpu_efficiency = favor; p.catable = catable; p.appendable = appendable; p.magic_number = magic; p.large_window = large;
+    p
+}
+
+/// input generators (all from one PRNG state)
+pub fn gen_input(rng: &mut Rng, n: usize, kind: u64) -> Vec<u8> {
+    let mut v = Vec::with_capacity(n);
+    match kind % 5 {
+        0 => { for _ in 0..n { v.push(rng.next() as u8); } } // incompressible
+        1 => { // text-like with long-range repeats
+            let words: Vec<Vec<u8>> = (0..40).map(|_| { let l = rng.range(2, 9) as usize; (0..l).map(|_| b'a' + rng.below(26) as u8).collect() }).collect();
+            while v.len() < n { let w = &words[rng.below(40) as usize]; v.extend_from_slice(w); v.push(b' '); }
+            v.truncate(n);
+        }
+        2 => { // repeats of a random block at varying distances (copies reach far back)
+            let bl = rng.range(50, 3000) as usize;
+            let block: Vec<u8> = (0..bl).map(|_| rng.next() as u8).collect();
+            while v.len() < n { if rng.chance(1, 3) { let l = rng.range(1, 400); for _ in 0..l { v.push(rng.next() as u8); } } let a = rng.below(bl as u64) as usize; let b = rng.range(a as u64, bl as u64) as usize; v.extend_from_slice(&block[a..b]); }
+            v.truncate(n);
+        }
+        3 => { for i in 0..n { v.push(((i * 7 + (i >> 3) * 13) % 251) as u8); } }
+        _ => { // low-entropy bytes
+            for _ in 0..n { v.push(b"abcd"[(rng.below(4)) as usize]); }
+        }
+    }
+    v
+}
+
+fn decode_ok(bytes: &[u8], large: bool, expect: &[u8]) -> Result<(), String> { crate::dec::decode_both(bytes, large, expect) }
+
+fn probe(args: &Args) {
+    let which = args.rest.get(1).map(|s| s.as_str()).unwrap_or("all");
+    let dbg = cfg!(debug_assertions);
+    println!("build: {}", if dbg { "debug (debug_assertions on)" } else { "release" });
+    if which == "d13" || which == "all" {
+        // any error after spawning: output too small
+        let mut rng = Rng::new(13);
+        let input = gen_input(&mut rng, 5000, 0);
+        for sp in [Spawner::Threads, Spawner::PoolFresh, Spawner::Inline] {
+            for t in [1usize, 2, 4] {
+                for cap in [10usize, BrotliEncoderMaxCompressedSizeMulti(input.len(), t)] {
+                    let p = mk_params(5, 22, false, false, false, false, false);
+                    let o = run_multi(sp, &p, &input, t, cap, None);
+                    println!("D13 spawner={} t={} cap={} -> class={} returned={} {}", sp.name(), t, cap, o.class, o.returned, o.msg);
+                }
+            }
+        }
+    }
+    if which == "d16" || which == "all" {
+        let mut rng = Rng::new(16);
+        for (q, lgwin, t, n, kind) in [(3, 22, 2usize, 20000usize, 1u64), (4, 22, 3, 20000, 1), (2, 22, 2, 20000, 1), (5, 22, 3, 20000, 1), (6, 13, 4, 60000, 1), (6, 13, 4, 60000, 2), (9, 13, 7, 12000, 1), (9, 13, 7, 12000, 2), (5, 10, 4, 20000, 2), (7, 12, 5, 40000, 2), (10, 13, 4, 60000, 2), (11, 13, 4, 30000, 2), (5, 18, 4, 60000, 2), (9, 22, 4, 60000, 2)] {
+            let input = gen_input(&mut rng, n, kind);
+            let cap = BrotliEncoderMaxCompressedSizeMulti(n, t) + 1000;
+            let off = run_multi(Spawner::Threads, &mk_params(q, lgwin, false, false, false, false, false), &input, t, cap, None);
+            let on = run_multi(Spawner::Threads, &mk_params(q, lgwin, true, false, false, false, false), &input, t, cap, None);
+            let d_off = if off.class == "ok" { format!("{:?}", decode_ok(&off.bytes, false, &input)) } else { "-".into() };
+            let d_on = if on.class == "ok" { format!("{:?}", decode_ok(&on.bytes, false, &input)) } else { "-".into() };
+            println!("D16 q={} lgwin={} t={} n={} kind={}: favor-off class={} len={} decode={} | favor-on class={} len={} same-bytes={} decode={} {}", q, lgwin, t, n, kind, off.class, off.bytes.len(), d_off, on.class, on.bytes.len(), on.bytes == off.bytes, d_on, on.msg);
+        }
+    }
+}
+
 pub fn run_cmd(args: &Args) {
+    if args.rest.get(0).map(|s| s.as_str()) == Some("probe") { return probe(args); }
     let corr = Corr::new(&args.out);
     let rep = Report::default();
     corr.finish();
